@@ -183,6 +183,10 @@ supal_esp_update_download(char *content, unsigned short content_len) {
 
 	unsigned short content_offset = 0;
 
+	// the server may keep sending after the announced length
+	if ( update->downloaded_data_size + content_len > update->expected_file_size )
+		content_len = update->expected_file_size - update->downloaded_data_size;
+
 	while(content_len > 0) {
 
 		unsigned short len =  content_len;
